@@ -654,4 +654,157 @@ theorem runCall_sound (T n : Int) (evs : List Event) (H : Int) (r : Result) (h :
     (fun s hs => ⟨[], by simp at hs; subst hs; rfl⟩) st hst
   exact ⟨obs, rfl⟩
 
+/-! ### Scripts without terminating events only produce quiet observations -/
+
+def QuietG (g : Group) : Prop := ∀ e ∈ g, e.2 = .irr ∨ e.2 = .rej
+def QuietE (evs : List Event) : Prop := ∀ e ∈ evs, e.kind = .irr ∨ e.kind = .rej
+
+theorem mem_insertions {α} (x : α) (l l' : List α) (h : l' ∈ insertions x l) : ∀ y ∈ l', y = x ∨ y ∈ l := by
+  induction l generalizing l' with
+  | nil => simp [insertions] at h; subst h; intro y hy; simp at hy; exact Or.inl hy
+  | cons a t ih =>
+    simp only [insertions, List.mem_cons, List.mem_map] at h
+    rcases h with rfl | ⟨m, hm, rfl⟩
+    · intro y hy; simp at hy; rcases hy with rfl | rfl | hy <;> simp [*]
+    · intro y hy
+      simp at hy
+      rcases hy with rfl | hy
+      · simp
+      · rcases ih m hm y hy with rfl | h' <;> simp [*]
+
+theorem quiet_no_find (g : Group) (hq : QuietG g) (k : EvKind) (hk : k = .cancel ∨ k = .close) :
+    g.find? (fun e => e.2 = k) = none := by
+  rw [List.find?_eq_none]
+  intro e he
+  rcases hq e he with h | h <;> rcases hk with rfl | rfl <;> simp [h]
+
+theorem mergeOrders_quiet (g : Group) (hq : QuietG g) : ∀ m ∈ mergeOrders g, QuietG m := by
+  intro m hm
+  unfold mergeOrders at hm
+  rw [quiet_no_find g hq .cancel (Or.inl rfl), quiet_no_find g hq .close (Or.inr rfl)] at hm
+  simp at hm
+  subst hm
+  intro e he
+  exact hq e (List.mem_filter.1 he).1
+
+theorem lose_quiet : ∀ (j : Nat) (l : Group), QuietG l → QuietG (lose j l) := by
+  intro j l
+  induction l generalizing j with
+  | nil => intro h; cases j <;> simpa [lose] using h
+  | cons a t ih =>
+    intro h
+    cases j with
+    | zero => simpa [lose] using h
+    | succ j =>
+      obtain ⟨i, k⟩ := a
+      have ht : QuietG t := fun e he => h e (List.mem_cons_of_mem _ he)
+      simp only [lose]
+      split
+      · intro e he
+        simp at he
+        rcases he with rfl | he
+        · exact Or.inl rfl
+        · exact ih j ht e he
+      · intro e he
+        simp at he
+        rcases he with rfl | he
+        · exact h _ (List.mem_cons_self ..)
+        · exact ih (j + 1) ht e he
+
+theorem toObs_quiet (t : Int) (a : Bool) (l : Group) (h : QuietG l) : Quiet (toObs t a l) := by
+  intro o ho
+  simp only [toObs, List.mem_map] at ho
+  obtain ⟨e, he, rfl⟩ := ho
+  rcases h e he with h' | h' <;> simp [obsKind, h']
+
+theorem quiet_append {a b : List Obs} (ha : Quiet a) (hb : Quiet b) : Quiet (a ++ b) := by
+  intro o ho
+  rcases List.mem_append.1 ho with h | h
+  · exact ha o h
+  · exact hb o h
+
+theorem groupViews_quiet (t : Int) (race : Bool) (g : Group) (hq : QuietG g) : ∀ v ∈ groupViews t race g, Quiet v := by
+  intro v hv
+  unfold groupViews at hv
+  split at hv
+  · simp only [List.mem_flatMap, List.mem_map, List.mem_range] at hv
+    obtain ⟨m, hm, p, _, j, _, rfl⟩ := hv
+    have hmq := mergeOrders_quiet g hq m hm
+    refine quiet_append (toObs_quiet _ _ _ ?_) (toObs_quiet _ _ _ (lose_quiet _ _ ?_))
+    · intro e he; exact hmq e (List.mem_of_mem_take he)
+    · intro e he; exact hmq e (List.mem_of_mem_drop he)
+  · simp only [List.mem_map] at hv
+    obtain ⟨m, hm, rfl⟩ := hv
+    exact toObs_quiet _ _ _ (mergeOrders_quiet g hq m hm)
+
+theorem groupsAux_quiet : ∀ (es : List Event) (clk : Int) (i : Nat) (cur : Option (Int × Bool × Group)),
+    QuietE es → (∀ c, cur = some c → QuietG c.2.2) → ∀ g ∈ groupsAux clk i es cur, QuietG g.2.2 := by
+  intro es
+  induction es with
+  | nil =>
+    intro clk i cur _ hc g hg
+    cases cur with
+    | none => simp [groupsAux] at hg
+    | some c0 => simp [groupsAux] at hg; subst hg; exact hc _ rfl
+  | cons e es ih =>
+    intro clk i cur hq hc g hg
+    have hqe := hq e (List.mem_cons_self ..)
+    have hqes : QuietE es := fun e' he' => hq e' (List.mem_cons_of_mem _ he')
+    have single : QuietG [(i, e.kind)] := by
+      intro x hx; simp at hx; subst hx; exact hqe
+    unfold groupsAux at hg
+    cases cur with
+    | none =>
+      simp only at hg
+      exact ih _ _ _ hqes (by intro c hc'; injection hc' with hc'; subst hc'; exact single) g hg
+    | some c =>
+      obtain ⟨tg, r, gg⟩ := c
+      by_cases hf : (e.sync || decide (e.t > clk)) = true
+      · simp only [hf] at hg
+        simp only [List.mem_cons] at hg
+        rcases hg with rfl | hg
+        · exact hc _ rfl
+        · exact ih _ _ _ hqes (by intro c hc'; injection hc' with hc'; subst hc'; exact single) g hg
+      · have hf' : (e.sync || decide (e.t > clk)) = false := by simpa using hf
+        simp only [hf'] at hg
+        refine ih _ _ _ hqes ?_ g hg
+        intro c hc'; injection hc' with hc'; subst hc'
+        intro x hx
+        rcases List.mem_append.1 hx with h | h
+        · exact hc _ rfl x h
+        · exact single x h
+
+theorem groups_quiet (evs : List Event) (hq : QuietE evs) : ∀ g ∈ groups evs, QuietG g.2.2 :=
+  groupsAux_quiet evs 0 0 none hq (by intro c hc; cases hc)
+
+theorem foldGroups_quiet (n : Int) (st0 : CState) (gs : List (Int × Bool × Group)) (hq : ∀ g ∈ gs, QuietG g.2.2) :
+    ∀ sts : List CState, (∀ s ∈ sts, ∃ obs, Quiet obs ∧ s = runFrom n st0 obs) →
+      ∀ s ∈ gs.foldl (fun sts (g : Int × Bool × Group) => stepGroup n g.1 g.2.1 g.2.2 sts) sts,
+        ∃ obs, Quiet obs ∧ s = runFrom n st0 obs := by
+  induction gs with
+  | nil => intro sts h; exact h
+  | cons g gs ih =>
+    intro sts h
+    refine ih (fun g' hg' => hq g' (List.mem_cons_of_mem _ hg')) _ ?_
+    intro s hs
+    unfold stepGroup at hs
+    rw [mem_dedup, List.mem_flatMap] at hs
+    obtain ⟨st, hst, hs⟩ := hs
+    rw [List.mem_map] at hs
+    obtain ⟨v, hv, rfl⟩ := hs
+    obtain ⟨obs, hobs, rfl⟩ := h st hst
+    have hvq := groupViews_quiet _ _ _ (hq g (List.mem_cons_self ..)) v hv
+    exact ⟨obs ++ v, quiet_append hobs hvq, (runFrom_append n st0 obs v).symm⟩
+
+/-- A script that only injects rejected / dropped datagrams makes the caller
+observe only quiet stimuli, in every result the script-level model allows. -/
+theorem runCall_quiet_sound (T n : Int) (evs : List Event) (H : Int) (hq : QuietE evs) (r : Result)
+    (h : r ∈ runCall T n evs H) : ∃ obs, Quiet obs ∧ r = runObs T n obs H := by
+  unfold runCall at h
+  rw [mem_dedup, List.mem_map] at h
+  obtain ⟨st, hst, rfl⟩ := h
+  obtain ⟨obs, hobs, rfl⟩ := foldGroups_quiet n (begin T n) (groups evs) (groups_quiet evs hq) [begin T n]
+    (fun s hs => ⟨[], (fun o ho => by cases ho), by simp at hs; subst hs; rfl⟩) st hst
+  exact ⟨obs, hobs, rfl⟩
+
 end Dhcp.Client.Timed
